@@ -12,6 +12,8 @@ import time
 ID = sys.argv[1]
 extra = sys.argv[2:]          # further check ids to run against the change
 src = '/tmp/seed/' + ID
+if ID.endswith('r3'):          # third round: worktrees /tmp/seed3/Cxx, demonstrations take the library from PYTHONPATH
+    src = '/tmp/seed3/' + ID[:3]
 dst = '/verif/seeded/' + ID
 os.makedirs(dst, exist_ok=True)
 PROP = ID[:3]          # second-round seeds are named C05r2, ...
@@ -35,8 +37,12 @@ if rc != 0:
     sys.exit(1)
 rc, out = sh('/venv/bin/python -m pytest -q -p no:cacheprovider tests 2>&1 | tail -3', cwd=src)
 meta['repo_tests_with_change'] = [l for l in out.splitlines() if 'passed' in l or 'failed' in l][-1:] or [out[-200:]]
-rc1, o1 = sh('/venv/bin/python %s/demo.py %s' % (dst, src), cwd='/tmp')
-rc0, o0 = sh('/venv/bin/python %s/demo.py /repo' % dst, cwd='/tmp')
+if ID.endswith('r3'):
+    rc1, o1 = sh('PYTHONPATH=%s /venv/bin/python %s/demo.py' % (src, dst), cwd='/tmp')
+    rc0, o0 = sh('PYTHONPATH=/repo /venv/bin/python %s/demo.py' % dst, cwd='/tmp')
+else:
+    rc1, o1 = sh('/venv/bin/python %s/demo.py %s' % (dst, src), cwd='/tmp')
+    rc0, o0 = sh('/venv/bin/python %s/demo.py /repo' % dst, cwd='/tmp')
 meta['demo_with_change'] = dict(rc=rc1, tail=o1.strip().splitlines()[-3:])
 meta['demo_without_change'] = dict(rc=rc0, tail=o0.strip().splitlines()[-3:])
 ok = rc1 != 0 and rc0 == 0 and any('100 passed' in l for l in meta['repo_tests_with_change'])
@@ -63,6 +69,14 @@ try:
             print('  check', cid, tier, 'rc=%d' % rc, 'violation lines=%d' % len(vio), (vio[0][:300] if vio else ''))
 finally:
     shutil.rmtree(D, ignore_errors=True)
+if os.path.exists(src + '/notes.json'):
+    try:
+        n = json.load(open(src + '/notes.json'))
+        meta['summary'], meta['needs'] = str(n.get('summary', '')), str(n.get('needs', ''))
+    except Exception:
+        pass
+if ID.endswith('r3'):
+    meta['round'] = 3
 meta['checks'] = results
 meta['detected_by'] = sorted({k.split('_')[0] for k, v in results.items() if v['rc'] == 1})
 json.dump(meta, open(dst + '/meta.json', 'w'), indent=1)
